@@ -172,3 +172,49 @@ def boundary_points():
                             pts.append(bytes([2 + (yy & 1)]) + x.to_bytes(32, "big"))
         _bpts[0] = pts
     return _bpts[0]
+
+
+def solve_zero_block(rng, high, field_bits, shift, a, b, fmax=None):
+    """A value f < 2^field_bits (f < fmax if given) such that N = high + f * 2^shift + c has base-58 digits
+    number a .. b-1 (from the right) all ZERO for EVERY 0 <= c < 2^(shift+1) — c stands for the part of the number the
+    caller cannot choose (the 4 checksum bytes and a flag byte below the field).  Needs 58^a > 2^(shift+2).
+    58^b = 2^b * 29^b and 2^shift is invertible modulo 29^b only, hence the two-step solution."""
+    T, M = 58 ** a, 58 ** b
+    assert T > 2 ** (shift + 2) and shift >= b
+    Mp = M >> b                                    # 29^b
+    for _ in range(200):
+        # want (high + f*2^shift) mod M = s with s < T - 2^(shift+1) and s = high (mod 2^b)  [f*2^shift = 0 mod 2^b]
+        s = (high % (1 << b)) + (rng.randrange(0, (T - (1 << (shift + 1))) >> b) << b)
+        x = (s - high) % M                         # = f * 2^shift (mod M), divisible by 2^b
+        xp = (x >> b) % Mp
+        f0 = xp * pow(pow(2, shift - b, Mp), -1, Mp) % Mp
+        span = (1 << field_bits) if fmax is None else fmax
+        if f0 >= span:
+            continue
+        f = f0 + Mp * rng.randrange(0, max(1, (span - f0) // Mp))
+        if 0 < f < span:
+            lo = high + (f << shift)
+            if all(((lo + c) // T) % (M // T) == 0 for c in (0, (1 << (shift + 1)) - 1)):
+                return f
+    return None
+
+
+def zero_block_cases(rng, count):
+    """(kind, value) pairs whose Base58Check text has an interior block of the zero digit '1' at an aligned position:
+    ('h160', version byte, 20-byte hash) for addresses and ('wif', scalar, compressed, testnet) for WIF"""
+    out = []
+    blocks = [(8, 10), (10, 15), (10, 20), (15, 20), (20, 30), (12, 17)]
+    for j in range(count):
+        a, b = blocks[j % len(blocks)]
+        ver = rng.choice([0x00, 0x05, 0x6f, 0xc4])
+        h = solve_zero_block(rng, ver << (160 + 32), 160, 32, a, b)
+        if h is not None:
+            out.append(("h160", ver, h.to_bytes(20, "big"), (a, b)))
+        comp, test = rng.random() < 0.5, rng.random() < 0.5
+        pre = 0xef if test else 0x80
+        shift = 40 if comp else 32
+        high = (pre << (256 + shift)) + ((1 << 32) if comp else 0)
+        k = solve_zero_block(rng, high, 256, shift, max(a, 8), max(b, 10), fmax=N)
+        if k is not None and 1 <= k < N:
+            out.append(("wif", k, comp, test, (a, b)))
+    return out
